@@ -184,3 +184,15 @@ Theorem C18_z_symmetric_binary64 : forall m (ts : ptables) t z,
   tables_at prim_arith m ts (PrimFloat.opp z) t = tables_at prim_arith m ts z t.
 Proof. exact z_symmetric_prim_lemma. Qed.
 Print Assumptions C18_z_symmetric_binary64.
+
+(* the F8 witness evaluated by Coq's own VM on the binary64 instance: z = 0, t = 136 ns / 144 ns give
+   r = 0x3fc64d7f0ed3d85a and 0x3fc63ac929aa1d76 (0.17424 m and 0.173669 m, 0.571 mm apart) — the bit patterns the
+   implementation returns for the first two lines of corpus/C18/boundary.case (so extraction, the OCaml runner and
+   the kernel's float evaluation agree on these cases) *)
+Example C18_F8_witness_binary64 :
+  space_point_f Checked drift_tables 0x1.240eca6a943fep-23%float 0.5%float 0%float
+    = Ok (0x1.64d7f0ed3d85ap-3%float, 0.5%float, 0%float) /\
+  space_point_f Checked drift_tables 0x1.353cd652bb167p-23%float 0.5%float 0%float
+    = Ok (0x1.63ac929aa1d76p-3%float, 0.5%float, 0%float) /\
+  PrimFloat.ltb 0.0005%float (PrimFloat.sub 0x1.64d7f0ed3d85ap-3 0x1.63ac929aa1d76p-3)%float = true.
+Proof. vm_compute. repeat split; reflexivity. Qed.
